@@ -5,6 +5,7 @@
   node <id> <op> [args] <- <n.p> <n.p>   add a node (list order = evaluation order)          -> ok
   sink <sid> <n.p> seq|bag               add a sink                                          -> ok
   perturb <stage> <fresh> <target> <k>   (C22) add a shape perturbation of the variant       -> ok
+  vnode <id> <op> [args] <- <n.p> ..     (C22) explicit node of the variant program          -> ok
   tick <t> <vals>|<vals>|...             run tick t of the program on the external inputs    -> sink outputs
   vtick <t> <vals>|...                   same for the perturbed variant                      -> sink outputs
 A value is `n`, `(v,v)` or `()`; a stream is `v;v;..` or `-`.  Sink outputs: streams joined by `|`,
@@ -122,6 +123,9 @@ def parseOp : List String → Option Op
   | ["join_fused_lhs", x, a, b] => do some (.joinFusedLhs (← parseAccum x) (← parsePers a) (← parsePers b))
   | ["join_fused_rhs", x, a, b] => do some (.joinFusedRhs (← parseAccum x) (← parsePers a) (← parsePers b))
   | ["join_multiset_half", a, b] => do some (.joinMultisetHalf (← parsePers a) (← parsePers b))
+  | ["fused_enum_chain_first_n", n] => n.toNat?.map .fusedEnumChainFirstN
+  | ["fused_unique_cross_singleton"] => some .fusedUniqueCrossSingleton
+  | ["fused_unique_defer_signal"] => some .fusedUniqueDeferSignal
   | _ => none
 
 def parseRef (s : String) : Option Ref :=
@@ -137,6 +141,7 @@ structure St where
   nodes : List Node := []          -- in order
   sinks : List (Ref × String) := []
   perts : List Perturbation := []
+  vnodes : List Node := []         -- explicit variant program (`vnode` lines), if any
   σ : States := States.init
   σv : States := States.init
 
@@ -144,7 +149,8 @@ def splitArrow (ws : List String) : List String × List String :=
   (ws.takeWhile (· != "<-"), (ws.dropWhile (· != "<-")).drop 1)
 
 def variantNodes (st : St) : List Node :=
-  st.perts.foldl (fun ns q => perturbNodes q.stage q.fresh q.target q.k ns) st.nodes
+  if st.vnodes.isEmpty then st.perts.foldl (fun ns q => perturbNodes q.stage q.fresh q.target q.k ns) st.nodes
+  else st.vnodes
 
 def doTick (st : St) (variant : Bool) (t : Nat) (extS : String) : Option (St × String) := do
   let ext ← (extS.splitOn "|").mapM parseStream
@@ -161,6 +167,11 @@ def step (st : St) (line : String) : St × String :=
     let (opw, refs) := splitArrow rest
     match id.toNat?, parseOp opw, refs.mapM parseRef with
     | some id, some op, some rs => ({ st with nodes := st.nodes ++ [⟨id, op, rs⟩] }, "ok")
+    | _, _, _ => (st, "bad-op")
+  | "vnode" :: id :: rest =>
+    let (opw, refs) := splitArrow rest
+    match id.toNat?, parseOp opw, refs.mapM parseRef with
+    | some id, some op, some rs => ({ st with vnodes := st.vnodes ++ [⟨id, op, rs⟩] }, "ok")
     | _, _, _ => (st, "bad-op")
   | ["sink", _sid, r, mode] =>
     match parseRef r with
